@@ -200,7 +200,14 @@ def best_cases(draw):
         for row in hs["idx"][: draw(st.integers(1, len(hs["idx"])))]:
             row[draw(st.integers(0, d - 1))] = draw(st.sampled_from([0, -1]))
     hs["idx"] = [[(10**6 - 1 if v == -1 else v) for v in row] for row in hs["idx"]]
-    return {"space": sp, "sampler": s, "history": hs}
+    # some evaluated points may lie OUTSIDE the space (bounds tightened after they were evaluated): whole precision steps
+    # beyond a bound, per (row, coordinate)
+    outside = []
+    if draw(st.integers(0, 3)) == 0:
+        for _ in range(draw(st.integers(1, 3))):
+            outside.append([draw(st.integers(0, len(hs["idx"]) - 1)), draw(st.integers(0, d - 1)),
+                            draw(st.sampled_from([-1, 1])), draw(st.integers(1, 6))])
+    return {"space": sp, "sampler": s, "history": hs, "outside": outside}
 
 
 def check_best(ctx: Ctx, case):
@@ -213,13 +220,16 @@ def check_best(ctx: Ctx, case):
     s = case["sampler"]
     bs, R = s["bs"], s["prange"]
     lo, hi, prec = (np.array(case["space"][k]) for k in ("lo", "hi", "prec"))
+    for i, j, side, steps in case.get("outside", []):
+        pts[i, j] = (lo[j] - steps * prec[j]) if side < 0 else (space.param_grid[j][-1] + steps * prec[j])
     srt = np.sort(losses)
     thr = srt[bs - 1]
     ties = bs < len(losses) and srt[bs] == thr
     parents = [i for i in range(len(losses)) if losses[i] <= thr]
     on_bound = any(pts[i, j] <= lo[j] or pts[i, j] >= hi[j] - prec[j] for i in parents for j in range(space.dims))
     ctx.count(sub, case, bool(ties or on_bound or np.any(np.abs(losses) >= F32MAX)),
-              ["ties" if ties else "no-ties", "bound" if on_bound else "interior", f"range={R}"])
+              ["ties" if ties else "no-ties", "bound" if on_bound else "interior", f"range={R}"] +
+              (["parent-outside-space"] if any(i in parents for i, _, _, _ in case.get("outside", [])) else []))
     sampler = gen.make_sampler(s)
     with guard(ctx, "C16/exception", sub, case):
         out = sampler.sample(space, pts, losses)
